@@ -245,7 +245,9 @@ func mkctx(c *callRec) context.Context {
 	return ctx
 }
 
-func contentFor(c *callRec) []byte { return vkit.NewRand(uint64(len(c.ReqID))*7919 + uint64(c.Size)).Bytes(c.Size) }
+func contentFor(c *callRec) []byte {
+	return vkit.NewRand(uint64(len(c.ReqID))*7919 + uint64(c.Size)).Bytes(c.Size)
+}
 
 // invoke performs the call on st and returns (result upload id, error).
 func invoke(ctx context.Context, st storage.Storage, c *callRec) (string, error) {
@@ -410,17 +412,17 @@ type sinkFile struct {
 }
 
 type scenarioRun struct {
-	sc    *scenario
-	rep   reporter
-	dir   string
-	keys  *keyset
-	files []sinkFile
-	cs    *countingSink
-	rec   *recStorage
-	mw    *auditmw.AuditLogMiddleware
-	calls []*callRec
-	mu    sync.Mutex
-	logf  func(format string, a ...any)
+	sc      *scenario
+	rep     reporter
+	dir     string
+	keys    *keyset
+	files   []sinkFile
+	cs      *countingSink
+	rec     *recStorage
+	mw      *auditmw.AuditLogMiddleware
+	calls   []*callRec
+	mu      sync.Mutex
+	logf    func(format string, a ...any)
 	aborted bool // a restart failed (already reported); the rest of the plan was skipped
 }
 
